@@ -94,6 +94,44 @@ theorem parseOp_select_inv {T : PrecTables} {F : Nat} {s sE : PSt} {q : PSelect}
       · try_inv hrun
         cases hrun
 
+/-- `parse_select` answers SELECT trees only -/
+theorem parseSelect_is_select {T : PrecTables} {F : Nat} {s sF : PSt} {op : POp} (h : parseSelect T F s = .ok op sF) :
+    ∃ q, op = .select q := by
+  rw [parseSelect_eq] at h
+  try_inv h
+  try_inv h
+  simp only [PRes.ok.injEq] at h
+  exact ⟨_, h.1.symm⟩
+
+/-- a token vector that starts with SELECT is read as a SELECT tree, if it is read at all -/
+theorem parseTokens_select_tree {T : PrecTables} {t : PTok} {ts : List PTok} {op : POp} (ht : t.tok = .kw .select)
+    (h : parseTokens T (t :: ts) = .tree op) : ∃ q, op = .select q := by
+  unfold parseTokens parseTokensFuel at h
+  simp only [] at h
+  split at h
+  · rename_i op' sE hrun
+    simp only [ParseOutcome.tree.injEq] at h
+    subst h
+    have hs : ({ cur := t, rest := ts } : PSt).cur.tok = .kw .select := ht
+    generalize ({ cur := t, rest := ts } : PSt) = s0 at hs hrun
+    unfold parseOp at hrun
+    split at hrun
+    · cases hrun
+    · unfold parseStatement at hrun
+      simp only [hs, if_true] at hrun
+      split at hrun
+      · cases hrun
+      · rename_i op2 sF hps
+        try_inv hrun
+        split at hrun
+        · simp only [PRes.ok.injEq] at hrun
+          rw [← hrun.1]; exact parseSelect_is_select hps
+        · cases hrun
+      · try_inv hrun
+        cases hrun
+  · cases h
+  · cases h
+
 theorem segShape_of_toks {a b : List PTok} (h : a.map (·.tok) = b.map (·.tok)) (ha : SegShape a) : SegShape b := by
   obtain ⟨t, body, rfl, hk, hnb⟩ := ha
   match b, h with
